@@ -43,14 +43,14 @@ type c05Outcome struct {
 }
 
 type e2eSide struct {
-	conn     net.Conn
-	wrote    [][]byte // payloads whose Write returned nil
-	offered  [][]byte
-	werr     error
-	read     []byte
-	rerr     error
-	rerrAt   time.Duration
-	werrAt   time.Duration
+	conn    net.Conn
+	wrote   [][]byte // payloads whose Write returned nil
+	offered [][]byte
+	werr    error
+	read    []byte
+	rerr    error
+	rerrAt  time.Duration
+	werrAt  time.Duration
 }
 
 func runC05(t *testing.T, c *c05Case) (out c05Outcome) {
@@ -281,7 +281,7 @@ func runC05(t *testing.T, c *c05Case) (out c05Outcome) {
 			var needles [][]byte
 			for _, p := range plains {
 				if len(p) >= 16 {
-					needles = append(needles, p[:16], p[len(p)/2:len(p)/2+16][:min(16, len(p)-len(p)/2)])
+					needles = append(needles, p[:16], p[len(p)/2 : len(p)/2+16][:min(16, len(p)-len(p)/2)])
 				}
 			}
 			if len(auth) >= 16 {
